@@ -70,7 +70,7 @@ def r06_1(ctx):
     # resolve_hybrid: order -> emitted pair
     for order, exp in (("SET_VAL_THEN_EXEC", ["set_tmp", "hybrid"]), ("EXEC_THEN_SET_VAL", ["hybrid", "set_tmp"]), ("NOT_SET", "RAISE")):
         r = Runner(idx, keep_real=("resolve_hybrid",))
-        fi, outs = r.run("resolve_hybrid", lambda: [AObj("Hybrid", {"value_type": vt32(), "seq_order": hyb_order(order), "references_set": []}, label="hybrid", opaque=True)], args_list=True)
+        fi, outs = r.run("resolve_hybrid", lambda: [AObj("Hybrid", {"value_type": vt32(), "seq_order": hyb_order(order), "references_set": set()}, label="hybrid", opaque=True)], args_list=True)
         for o in outs:
             if o.kind == "raise":
                 ctx.check(f"resolve_hybrid[{order}]", exp == "RAISE", str(exp), "RAISE", fn_where(idx, fi))
@@ -88,7 +88,7 @@ def r06_1(ctx):
             ctx.check(f"resolve_hybrid[{order}] numbers temporaries with a counter that only grows", holder.fields.get("hybrid_op_count") == 1, "hybrid_op_count 0 -> 1", str(holder.fields.get("hybrid_op_count")), fn_where(idx, fi))
     # void hybrids stay in statement position
     r = Runner(idx, keep_real=("resolve_hybrid",))
-    fi, outs = r.run("resolve_hybrid", lambda: [AObj("Hybrid", {"value_type": void(), "seq_order": hyb_order("EXEC_ONLY"), "references_set": []}, label="hybrid", opaque=True)], args_list=True)
+    fi, outs = r.run("resolve_hybrid", lambda: [AObj("Hybrid", {"value_type": void(), "seq_order": hyb_order("EXEC_ONLY"), "references_set": set()}, label="hybrid", opaque=True)], args_list=True)
     ctx.check("resolve_hybrid[void] returns the effect itself", [lab(o.value) for o in outs] == ["hybrid"], "hybrid", str([lab(o.value) for o in outs]), fn_where(idx, fi))
     # PostfixIncDec templates
     for op, name in (("++", "INC"), ("--", "DEC")):
@@ -261,3 +261,103 @@ def r06_6(ctx):
     fi = idx.func("RZILTransformer.resolve_hybrid")
     names = [U(n.value) for n in ast.walk(fi.node) if isinstance(n, ast.Assign) and isinstance(n.targets[0], ast.Name) and "hybrid_op_count" in U(n.value)]
     ctx.check("temporary name generator", names == ["f'h_tmp{self.il_ops_holder.hybrid_op_count}'"], "f'h_tmp{counter}'", str(names), fn_where(idx, fi))
+
+
+MUST_USE = {"chk_hybrid_dep", "resolve_hybrid", "init_a_cast", "promotion_cast", "cast_operands", "add_op"}
+
+
+@rule("R06.7", "C06", "the sequence returned by chk_hybrid_dep (consumer plus its pending effects) is the one that is used; pending effects of nested hybrids stay attached", min_instances=3)
+def r06_7(ctx):
+    idx = get_index(ctx.env)
+    n = 0
+    for fi in idx.funcs.values():
+        if fi.cls != "RZILTransformer":
+            continue
+        for s in ast.walk(fi.node):
+            if isinstance(s, ast.Expr) and isinstance(s.value, ast.Call) and call_tail(s.value) in MUST_USE - {"add_op"}:
+                ctx.check(f"{fi.qual}: result of {call_tail(s.value)} is discarded", False, "result is returned, assigned or passed on", U(s)[:80], fn_where(idx, fi))
+            if isinstance(s, ast.Call) and call_tail(s) == "chk_hybrid_dep":
+                n += 1
+    ctx.check("chk_hybrid_dep call sites found", n >= 15, ">= 15 call sites", str(n), "rzilcompiler/Transformer/RZILTransformer.py", nontrivial=False)
+    # resolve_hybrid: when the hybrid's own operands have pending effects, the registered pair includes them
+    r = Runner(idx, keep_real=("resolve_hybrid",))
+    r.flush_forks = True
+    fi, outs = r.run("resolve_hybrid", lambda: [AObj("Hybrid", {"value_type": mk_vt("t", True, 32), "seq_order": hyb_order("EXEC_THEN_SET_VAL"), "references_set": set()}, label="hybrid", opaque=True)], args_list=True)
+    seen = 0
+    for o in outs:
+        if o.kind == "raise":
+            continue
+        forked = [v for t, v in o.decisions if t == "pending effects reference the consumer"]
+        if not any(forked):
+            continue
+        seen += 1
+        d = r.self_obj.fields["il_ops_holder"].fields["hybrid_effect_dict"] if False else None
+    # evaluate per outcome through the events: the dict store is an event
+    for o in outs:
+        if o.kind == "raise":
+            continue
+        forked = [v for t, v in o.decisions if t == "pending effects reference the consumer"]
+        stores = [e for e in o.events if e[0] == "setitem" and isinstance(e[1], dict)]
+        if not stores:
+            ctx.check("resolve_hybrid registers its pending pair", False, "hybrid_effect_dict[h_tmpN] = seq", "no store", fn_where(idx, fi))
+            continue
+        val = stores[-1][3]
+        if any(forked):
+            ok = isinstance(val, AObj) and (val.label or "").startswith("Flushed(")
+            ctx.check("resolve_hybrid[nested pending effects] registers the flushed sequence", ok, "Flushed(Sequence([hybrid, set_tmp]))", lab(val)[:80], fn_where(idx, fi))
+        else:
+            ctx.check("resolve_hybrid[no nested pending effects] registers the pair", isinstance(val, AObj) and val.cls == "Sequence", "Sequence([hybrid, set_tmp])", lab(val)[:80], fn_where(idx, fi), nontrivial=False)
+
+
+@rule("R06.3", "C06", "flush completeness: a value-producing operation whose value is unused (expression statement) is still sequenced at its source position", min_instances=3)
+def r06_3(ctx):
+    from .c15 import get_engine
+
+    idx = get_index(ctx.env)
+    gm = get_grammar(ctx.env)
+    ke = get_engine(ctx.env)
+    for e in ke.errors:
+        ctx.need(False, f"kind engine: {e}")
+    cbs = transformer_callbacks(idx)
+    # statement positions: where does a pending-hybrid value end up?
+    es = [a for a in gm.rules["expr_stmt"] if len(a.symbols) == 2]
+    ctx.need(len(es) == 1, "expr_stmt: `expr ;` alternative not found")
+    ctx.note(f"`expr ;` is {gm.shape(es[0], cbs)[0]} (no flushing callback runs for an expression statement)")
+    sites = {"fbody (top-level Effect filter)": "RZILTransformer.emit_final_seq_return", "selection_stmt: Sequence element": "RZILTransformer.selection_stmt",
+             "iteration_stmt: Sequence element": "RZILTransformer.for_loop", "gcc_extended_expr: Sequence element": "RZILTransformer.gcc_extended_expr"}
+    hits = {k: f for k, f in ke.findings.items() if f.kind == "D2" and k.endswith("pending hybrid value")}
+    for site, q in sites.items():
+        k = f"{site}: pending hybrid value"
+        f = hits.pop(k, None)
+        fi = idx.func(q)
+        ctx.check(f"statement position [{site.split(':')[0].split(' (')[0]}] never receives an unflushed hybrid value", f is None, "pending effects are sequenced where the statement stands",
+                  "an expression statement such as `i++;` or `f(x);` arrives here as a plain value; its effect stays pending and is emitted at the start of the instruction / outside this block" if f else "ok", fn_where(idx, fi))
+    for k, f in hits.items():
+        ctx.check(k, False, "pending effects are sequenced where the statement stands", f.observed, f.where)
+
+
+@rule("R06.4", "C06", "side effects inside a loop condition are evaluated on every iteration (inside REPEAT), not once before the loop", min_instances=1)
+def r06_4(ctx):
+    from sa.kinds import KindEngine
+
+    idx = get_index(ctx.env)
+    r = Runner(idx)
+    box = {}
+
+    def items():
+        owner = AObj("Hybrid", {}, label="cond.owner", opaque=True)
+        cond = r.pure("items[2]", vt=mk_vt("tc", True, 32, ("PURE", "HYBRID_LVAR")), cls="LocalVar", hybrid_owner=owner)
+        box["cond"] = cond
+        return [Tok("FOR", "for"), eff(r, "items[1]"), cond, eff(r, "items[3]"), eff(r, "items[4]")]
+
+    fi, outs = r.run("iteration_stmt", items)
+    good = [o for o in outs if o.kind != "raise"]
+    ctx.need(good, "for loop has no translating path")
+    for o in good:
+        v = o.value
+        loops = [e[2] for e in o.events if e[0] == "node" and e[1] == "ForLoop"]
+        ctx.need(len(loops) == 1, "for loop node not found")
+        comp = ctor(loops[0], "compound")
+        inside = id(box["cond"]) in KindEngine.reach(comp)
+        ctx.check("for loop: pending effects of the condition are flushed inside the loop body", inside, "a flushed consumer inside REPEAT references the condition",
+                  "only the enclosing Sequence([init, loop]) references the condition: its pending effect runs once, before the initialiser", fn_where(idx, fi))
